@@ -2,12 +2,14 @@ package c16
 
 import (
 	"fmt"
+	"reflect"
 	"sort"
 	"testing"
 
 	rhp2 "go.sia.tech/core/rhp/v2"
 	rhp4 "go.sia.tech/core/rhp/v4"
 	"pgregory.net/rapid"
+	"verif/harness/gen"
 	"verif/harness/stats"
 )
 
@@ -549,6 +551,11 @@ func checkDiff(c ProofCase) error {
 	}
 	if !eqHashes(gotLeaf, wantLeaf) {
 		return fail("build", "leaf hashes = %s, tree definition gives %s (touched %v)", showHashes(gotLeaf), showHashes(wantLeaf), touched)
+	}
+	// the two lists are the caller's (they travel in different fields of the response, either may be appended to)
+	both := struct{ Tree, Leaf []H }{gotTree, gotLeaf}
+	if herr := gen.AppendHazard(reflect.ValueOf(&both).Elem()); herr != nil {
+		return fail("build-outputs-share-memory", "%v", herr)
 	}
 
 	// the verifier under the current index/action list
